@@ -4,6 +4,7 @@
 mod cv;
 mod bs;
 mod mq;
+mod pl;
 mod tp;
 mod rp;
 mod util;
@@ -68,6 +69,7 @@ fn main() {
             "rp" => rp::run_case(&f),
             "cv" => cv::run_case(&mut servers, &f),
             "mq" => mq::run_case(&f),
+            "pl" => pl::run_case(&mut servers, &f),
             "tp" => tp::run_case(&f),
             "bs" => bs::run_case(&f),
             other => format!("UNKNOWN-EXECUTOR {}", other),
